@@ -309,7 +309,7 @@ def run(ctx):
     rest = [x for x in recs if len(x["text"]) > 1]
     rng.shuffle(rest)
     ordered = first + rest
-    pin_budget, real_budget = (20, 60) if ctx.quick else (240, 1000)
+    pin_budget, real_budget = (15, 45) if ctx.quick else (240, 1000)
     wild = build_wild()
     with scratch("c24") as d:
         seeds = Seeds(d / "seeds")
